@@ -46,6 +46,11 @@ func hostileData() map[string]any {
 		"f":    2.5,
 		"fz":   0.0,
 		"fneg": -0.75,
+		"nan":  math.NaN(),
+		"inf":  math.Inf(1),
+		"ninf": math.Inf(-1),
+		"tiny": 5e-324,
+		"huge": math.MaxFloat64,
 		"s":    "héllo wörld",
 		"es":   "",
 		"num":  "42",
@@ -66,7 +71,7 @@ func hostileData() map[string]any {
 	}
 }
 
-var hostileNames = []string{"i", "z", "neg", "big", "low", "u", "f", "fz", "fneg", "s", "es", "num", "t", "no", "n", "arr", "ea", "na", "mix", "aa", "obj", "nm", "row", "rowp", "nilp", "rows", "nope"}
+var hostileNames = []string{"i", "z", "neg", "big", "low", "u", "f", "fz", "fneg", "nan", "inf", "ninf", "tiny", "huge", "s", "es", "num", "t", "no", "n", "arr", "ea", "na", "mix", "aa", "obj", "nm", "row", "rowp", "nilp", "rows", "nope"}
 
 var allBuiltinNames = func() []string {
 	seen := map[string]bool{}
@@ -227,6 +232,68 @@ func (g *untypedGen) blockNoContinue(depth int) string {
 	return "[" + "{{ " + g.expr(2) + " }}" + "@if(" + g.expr(1) + ")x@end"
 }
 
+// expressions that fail whenever they are evaluated (the fault kinds the property names)
+var faultExprs = []string{"1 % 0", "1 / 0", "nope", "n.x", "s.x.y", `"a".repeat(-1)`, `"a".repeat("x")`, `1 + "a"`, `-"a"`, `"a".nosuchfunc()`, "arr.len(1, 2).x", "(nan--).x"}
+
+// places of a template tree an expression F can stand in; evaluated says whether the place is reached
+var faultPlaces = []struct {
+	name      string
+	page      string
+	evaluated bool
+	either    bool
+}{
+	{"print", "a{{ F }}b", true, false},
+	{"assign", "{{ q = F }}b", true, false},
+	{"if-cond", "@if(F)y@end", true, false},
+	{"elseif-cond", "@if(false)y@elseif(F)z@end", true, false},
+	{"elseif-cond-not-reached", "@if(true)y@elseif(F)z@end", false, false},
+	{"if-body-not-taken", "@if(false){{ F }}@end ok", false, false},
+	{"else-body-not-taken", "@if(true)y@else{{ F }}@end", false, false},
+	{"ternary-taken", "{{ true ? F : 1 }}", true, false},
+	{"ternary-not-taken", "{{ true ? 1 : F }}", false, false},
+	{"each-array", "@each(v in F)x@end", true, false},
+	{"each-body-second-pass", "@each(v in [1, 2])[{{ v }}]@if(v == 2){{ F }}@end@end", true, false},
+	{"each-else-not-taken", "@each(v in [1])x@else{{ F }}@end", false, false},
+	{"each-else-taken", "@each(v in [])x@else{{ F }}@end", true, false},
+	{"for-init", "@for(k = F; k < 1; k++)x@end", true, false},
+	{"for-cond", "@for(k = 0; F; k++)x@break@end", true, false},
+	{"for-post", "@for(k = 0; k < 2; F)x@end", true, false},
+	{"for-post-not-reached", "@for(k = 0; k < 2; F)x@break@end", false, false},
+	{"breakif", "@each(v in [1, 2])x@breakIf(F)@end", true, false},
+	{"continueif", "@each(v in [1, 2])x@continueIf(F)y@end", true, false},
+	{"after-break", "@each(v in [1, 2])x@break{{ F }}@end", false, false},
+	{"dump", "@dump(F)", false, true},        // @dump shows what its argument evaluates to, a fault included: either
+	{"dump-second", "@dump(1, F)", false, true}, // outcome is a defined result, only the contract is checked
+	{"array-element", "{{ [1, F, 3] }}", true, false},
+	{"object-value", "{{ q = {a: 1, b: F} }}ok", true, false},
+	{"index", "{{ [1, 2][F] }}", true, false},
+	{"indexed", "{{ (F)[0] }}", true, false},
+	{"call-argument", `{{ "abc".at(F) }}`, true, false},
+	{"call-receiver", "{{ (F).len() }}", true, false},
+	{"custom-call-argument", "{{ 1.tr(F) }}", true, false},
+	{"binary-left", "{{ (F) + 1 }}", true, false},
+	{"binary-right", "{{ 1 + (F) }}", true, false},
+	{"prefix", "{{ !(F) }}", true, false},
+	{"component-argument-used", `@component("~box", {used: F})`, true, false},
+	{"component-argument-unused", `@component("~box", {used: 1, unused: F})`, true, false},
+	{"component-argument-dormant", `@component("~box", {used: 1, dormant: F})`, true, false},
+	{"component-argument-first-of-many", `@component("~box", {a: F, used: 1, z: 2})`, true, false},
+	{"component-argument-last-of-many", `@component("~box", {a: 0, used: 1, z: F})`, true, false},
+	{"component-argument-in-loop", `@each(v in [1, 2])@component("~box", {used: v, unused: F})@end`, true, false},
+	{"component-argument-nested-component", `@component("~wrap")`, true, false},
+	{"component-argument-with-slots", `@component("~box", {used: 1, unused: F})@slot one@end@end`, true, false},
+	{"component-body", `@component("~bad")`, true, false},
+	{"component-body-in-untaken-branch", `@if(false)@component("~bad")@end ok`, false, false},
+	{"default-slot-body", `@component("~box", {used: 1})@slot{{ F }}@end@end`, true, false},
+	{"named-slot-body", `@component("~box", {used: 1})@slot("foot"){{ F }}@end@end`, true, false},
+	{"second-slot-body", `@component("~box", {used: 1})@slot a@end@slot("foot"){{ F }}@end@end`, true, false},
+	{"insert-argument", `@use("~main")@insert("title", F)@insert("body", "b")`, true, false},
+	{"insert-argument-second", `@use("~main")@insert("title", "t")@insert("body", F)`, true, false},
+	{"insert-block", `@use("~main")@insert("title", "t")@insert("body")x{{ F }}@end`, true, false},
+	{"insert-block-in-loop", `@use("~main")@insert("body")@each(v in [1, 2]){{ v }}{{ F }}@end@end`, true, false},
+	{"layout-body", `@use("~faulty")@insert("body", "b")`, true, false},
+}
+
 // checkOutcome asserts the contract of a render: output, or an error that
 // is a value and carries a line
 func checkOutcome(c *core.Ctx, got Outcome, src string, needLine bool) {
@@ -305,7 +372,7 @@ func init() {
 			recvs := []string{
 				`""`, `"a"`, `"héllo"`, `"中é"`, `"  pad  "`, `"12"`, `"-5"`, `"a,b"`, "s", "es",
 				"[]", "[1, 2, 3]", `["a", "b"]`, "[[1], [2]]", "[{a: 1}]", "arr", "ea", "na", "mix", "rows",
-				"0", "7", "neg", "big", "low", "(0 - 1)", "1.5", "fz", "fneg", "(0.0 - 2.5)", "1000000.5", "true", "false", "t",
+				"0", "7", "neg", "big", "low", "(0 - 1)", "1.5", "fz", "fneg", "(0.0 - 2.5)", "1000000.5", "nan", "inf", "ninf", "tiny", "huge", "(0.0 / 0.0)", "(1.0 / 0.0)", "true", "false", "t",
 				"nil", "n", "obj", "{}", "row", "nilp",
 			}
 			var calls []call
@@ -315,7 +382,7 @@ func init() {
 				}
 			}
 			argVals := []string{"0", "1", "-1", "2", "5", "-5", "6", "-6", "2147483648", "(0 - 2147483648)", "9223372036854775807", "(0 - 9223372036854775807 - 1)",
-				`""`, `"a"`, `"é"`, `", "`, "1.5", "true", "nil", "[1]", "{a: 1}", "arr", "obj", "n"}
+				`""`, `"a"`, `"é"`, `", "`, "1.5", "true", "nil", "[1]", "{a: 1}", "arr", "obj", "n", "nan", "inf"}
 			secs = append(secs, core.Section{Name: "builtin-matrix", Exhaustive: true, N: len(calls),
 				Run: func(c *core.Ctx, i int) {
 					cl := calls[i]
@@ -345,6 +412,66 @@ func init() {
 					}
 					if i%97 == 0 {
 						c.Sample(fmt.Sprintf("(%s).%s(…) with 0..3 arguments from %d boundary values", cl.recv, cl.name, len(argVals)))
+					}
+				}})
+			// not-a-number, infinities, the smallest and the largest float under every operator
+			specials := []string{"nan", "inf", "ninf", "tiny", "huge", "fz", "(0.0 - 0.0)", "(0.0 / 0.0)", "(inf - inf)", "(inf * 0.0)", "(1.0 / 0.0)", "(huge * huge)", "(0.0 - huge * 10.0)"}
+			others := append(append([]string{}, specials...), "0", "1", "-1", "big", "low", "2.5", `"a"`, "true", "nil", "[1]", "{a: 1}")
+			secs = append(secs, core.Section{Name: "special-floats", Exhaustive: true, N: len(specials),
+				Run: func(c *core.Ctx, i int) {
+					x := specials[i]
+					try := func(src string) {
+						c.Input(map[string]any{"source": src, "data": "hostileData()"})
+						got := evalString(c, src, data)
+						c.Nontrivial(src)
+						checkOutcome(c, got, src, true)
+					}
+					for _, f := range []string{"{{ %s }}", "{{ -%s }}", "{{ !%s }}", "{{ (%s)++ }}", "{{ (%s)-- }}", "{{ q = %s }}{{ q++ }}{{ q }}", "{{ q = %s }}{{ q-- }}{{ q }}", "{{ q = %s }}{{ q-- }}{{ q-- }}{{ q++ }}{{ q }}",
+						"@if(%s)y@else n@end", "{{ %s ? 1 : 2 }}", "{{ [1, 2][%s] }}", "{{ [%s] }}", "{{ {k: %s} }}", "@dump(%s)", "@each(v in [%s]){{ v-- }}{{ v }}@end", "@for(q = %s; q < 1; q++)x@break@end", "@for(q = %s; q > 1; q--)x@break@end"} {
+						try(fmt.Sprintf(f, x))
+					}
+					for _, y := range others {
+						for _, op := range binOps {
+							try("{{ " + x + " " + op + " " + y + " }}")
+							try("{{ " + y + " " + op + " " + x + " }}")
+						}
+					}
+				}})
+			// a failing expression in every place of a template tree, also where the value is never used:
+			// the render must end in an error value with a line, and must not end in output
+			secs = append(secs, core.Section{Name: "fault-places", Exhaustive: true, N: len(faultExprs) * len(faultPlaces),
+				Run: func(c *core.Ctx, i int) {
+					f, pl := faultExprs[i%len(faultExprs)], faultPlaces[i/len(faultExprs)]
+					files := map[string]string{
+						"layouts/main.tw":    "<html>@reserve(\"title\")|@reserve(\"body\")</html>",
+						"layouts/faulty.tw":  "<html>{{ " + f + " }}@reserve(\"body\")</html>",
+						"components/box.tw":  "<box>{{ used }}@if(false){{ dormant }}@end|@slot|@slot(\"foot\")</box>",
+						"components/bad.tw":  "<bad>{{ " + f + " }}</bad>",
+						"components/wrap.tw": "<wrap>@component(\"~box\", {used: 1, dormant: " + f + "})</wrap>",
+						"page.tw":            strings.ReplaceAll(pl.page, "F", f),
+					}
+					tpl, err := loadTree(c, "c09tree", files, ".tw")
+					c.Nontrivial(pl.name + "|" + f)
+					if err != nil {
+						c.Violation("fault-places:load", "a well-formed tree was rejected: "+err.Error(), map[string]any{"place": pl.name, "fault": f, "files": describeFiles(files)})
+						return
+					}
+					if tpl == nil {
+						return
+					}
+					got, _ := renderPage(c, tpl, "page", data)
+					if i%53 == 0 {
+						c.Sample(map[string]any{"place": pl.name, "fault": f, "page": files["page.tw"], "outcome": clipS(got.Describe(), 160)})
+					}
+					checkOutcome(c, got, files["page.tw"], true)
+					if got.Panicked {
+						return
+					}
+					if !pl.either && pl.evaluated && got.Err == nil {
+						c.Violation("fault-lost:"+pl.name, fmt.Sprintf("the fault %s in place %q was evaluated but the render succeeded with %q", f, pl.name, clipS(got.Out, 200)), map[string]any{"place": pl.name, "fault": f, "files": describeFiles(files)})
+					}
+					if !pl.either && !pl.evaluated && got.Err != nil {
+						c.Violation("fault-raised-unevaluated:"+pl.name, fmt.Sprintf("the fault %s in the unevaluated place %q failed the render: %s", f, pl.name, got.Err.Error()), map[string]any{"place": pl.name, "fault": f, "files": describeFiles(files)})
 					}
 				}})
 			// data maps: nil pointers and unsupported kinds at depth 0..3
